@@ -407,7 +407,7 @@ def execute(program, ctx, mode):
     def apply(rs, m):
         k = m[0]
         if k == 'reg':
-            rs[m[1]].register(m[2], m[3], m[4], m[5])
+            rs[m[1]].register(list(m[2]) if len(m[4]) == 1 else m[2], m[3], m[4], m[5])      # (a list is as good as a tuple)
         elif k == 'unreg':
             rs[m[1]].unregister(m[2], m[3], m[4], m[5])
         elif k == 'sub':
@@ -574,9 +574,31 @@ def execute(program, ctx, mode):
             out.append(ob)
         return out
 
+    class LazySeq:
+        """a `required` argument that is only an iterable (consumed once per iteration)"""
+
+        def __init__(self, items):
+            self.items = list(items)
+
+        def __iter__(self):
+            return iter(self.items)
+
+    askno = [0]
+
     def ask(rs, key, e, default=None, name=None):
         reg = rs[key['r'] % nR]
         specs = key_specs(key)
+        # the shape of the `required` argument rotates: list, tuple, one-shot generator, plain iterable
+        askno[0] += 1
+        shape_ = askno[0] % 4
+        if shape_ == 1:
+            specs_arg = tuple(specs)
+        elif shape_ == 2:
+            specs_arg = (x for x in list(specs))
+        elif shape_ == 3:
+            specs_arg = LazySeq(specs)
+        else:
+            specs_arg = specs
         p = key['p'] % (nP + 1)
         pi = prov(p)
         nm = NAMES[key['n'] % 3] if name is None else name
@@ -589,15 +611,15 @@ def execute(program, ctx, mode):
         if kind == 'lookup1' and len(specs) != 1:
             kind = 'lookup'
         if kind == 'lookup':
-            return kind, reg.lookup(specs, pi, nm, default)
+            return kind, reg.lookup(specs_arg, pi, nm, default)
         if kind == 'lookup1':
             return kind, reg.lookup1(specs[0], pi, nm, default)
         if kind == 'lookupAll':
-            return kind, sorted(reg.lookupAll(specs, pi), key=lambda kv: kv[0])
+            return kind, sorted(reg.lookupAll(specs_arg, pi), key=lambda kv: kv[0])
         if kind == 'names':
-            return kind, sorted(reg.names(specs, pi))
+            return kind, sorted(reg.names(specs_arg, pi))
         if kind == 'subscriptions':
-            return kind, list(reg.subscriptions(specs, pi))
+            return kind, list(reg.subscriptions(specs_arg, pi))
         if kind == 'queryAdapter':
             return kind, reg.queryAdapter(objs[0], pi, nm, default)
         if kind == 'adapter_hook':
